@@ -328,4 +328,56 @@ mod proofs_registry {
         kani::cover!(unsafe { L::n == 3 } && r0 >= 1 && vshim::consistent(), "an overlapping delivery ran the old list");
         kani::cover!(unsafe { L::n == 2 } && vshim::consistent(), "a delivery ran the new list");
     }
+
+    /// The same against `register` of a fourth action for the same signal on
+    /// thread 0: the delivery runs the old list or the old list followed by the new
+    /// action; nothing is released.
+    #[kani::proof]
+    #[kani::stub(alloc::alloc::dealloc_nonnull, noop_dealloc)]
+    #[kani::unwind(8)]
+    pub fn c02_lr_registry_delivery_vs_register() {
+        unsafe { vshim::ST::mirror_ptrs = true };
+        reg::init_globals();
+        let sa = libc::SIGUSR1;
+        let a0 = unsafe { ARCS::next };
+        let a = ok(unsafe { register(sa, move || timed_action(1, a0)) });
+        let b = ok(unsafe { register(sa, move || timed_action(2, a0 + 1)) });
+        assert!(a.is_some() && b.is_some() && unsafe { ARCS::next } == a0 + 2, "C02: registering a catchable signal failed");
+        vshim::set_mode_lr(3, 3, 0);
+        vshim::thread_start(0);
+        let c = ok(unsafe { register(sa, move || timed_action(3, a0 + 2)) });
+        unsafe {
+            if c.is_none() || ARCS::released[a0] != 0 || ARCS::released[a0 + 1] != 0 || ARCS::released[a0 + 2] != 0 {
+                flag(E_DOUBLE);
+            }
+        }
+        let r0 = vshim::round();
+        vshim::thread_start(1);
+        vshim::sys_point();
+        clear_log();
+        deliver(sa);
+        let r1 = vshim::round();
+        unsafe {
+            let n = L::n;
+            let old = n == 2 && L::log[0] == 1 && L::log[1] == 2;
+            let new = n == 3 && L::log[0] == 1 && L::log[1] == 2 && L::log[2] == 3;
+            if !old && !new {
+                flag(E_MIXTURE);
+            }
+        }
+        let e = vshim::errors();
+        if kani::any::<bool>() {
+            assert!(!vshim::lr_violation_of(E_MIXTURE), "C02: a delivery overlapping register ran neither the old nor the new action list of its signal, in order");
+            assert!(!vshim::lr_violation_of(E_DOUBLE), "C01: register released an action, or failed");
+            assert!(!vshim::lr_violation_of(E_UAF), "C01: a delivery invoked an action after what it captured had been released");
+        } else {
+            kani::assume(vshim::consistent());
+            assert!(e & E_MIXTURE == 0, "C02: [replayable] a delivery overlapping register ran neither the old nor the new action list of its signal, in order");
+            assert!(e & E_DOUBLE == 0, "C01: [replayable] register released an action, or failed");
+            assert!(e & E_UAF == 0, "C01: [replayable] a delivery invoked an action after what it captured had been released");
+        }
+        kani::cover!(r0 >= 1 && r1 >= 1 && vshim::consistent(), "delivery overlapped the register (both threads ran in more than one round)");
+        kani::cover!(unsafe { L::n == 2 } && r0 >= 1 && vshim::consistent(), "an overlapping delivery ran the old list");
+        kani::cover!(unsafe { L::n == 3 } && vshim::consistent(), "a delivery ran the new list");
+    }
 }
